@@ -28,6 +28,17 @@ CHECKS = {
             "model/implementation correspondence)", "DESIGN.md §6 C02"),
 }
 
+CHECKS["C13"] = ("proof",
+    "Coq theorems position_after_ok / positions_chain_ok / start_position_ok (line = 1 + newlines before the offset, column "
+    "= bytes since the line start, for every byte string and every chain of slices) and spans_ordered (meaning of the "
+    "ordering checker). The span statements (token value = slice at its span, ordered leaf spans, node span = hull, "
+    "empty node zero-width between its neighbours) are the Coq boolean spans_ok_b evaluated by the kernel on EVERY tree "
+    "the real LR parser returns, and the byte-level Gallina model of the LR runtime + string lexer + layout parser "
+    "reproduces every real outcome (trees with spans/layout/values, error positions). GLR trees are span-checked by the "
+    "C03/C07 runs. Partial: the span invariant is not yet proved as a theorem about the model for all inputs.",
+    "machine-checked proof in Coq (position arithmetic theorems) + kernel-evaluated span checker on every real tree + "
+    "byte-level model/implementation correspondence", "DESIGN.md §6 C13")
+
 PENDING_REASON = ("not yet claimed: check under construction (DESIGN.md §6 describes the planned theorem, validator and "
                   "correspondence); it is registered only once it runs end to end")
 
